@@ -1,4 +1,45 @@
-(* Case runner and spec checker (T3) for C11 — stub. *)
-From WI Require Import Lib.Base Lib.Info Model.PgpEntity.
-Definition run_C11 (op : bytes) (input : arg) : arg := AL [].
-Definition check_C11 (op : bytes) (input impl : arg) : arg := AL [].
+(* Case runner and spec checker (T3) for C11. *)
+From WI Require Import Lib.Base Lib.Info Lib.Strings Lib.Sha1 Model.PgpKey Model.PgpEntity Run.PgpCommon.
+Open Scope N_scope.
+
+Definition run_C11 (op : bytes) (input : arg) : arg :=
+  if bytes_eqb op (bs "entity") || bytes_eqb op (bs "entity_x") then run_inspect input
+  else AL [].
+
+(* does the description mention identity [name] / a subkey with fingerprint [fpr]? *)
+Definition lists_name (i : info) (name : bytes) : bool :=
+  existsb (fun k => bytes_eqb (i_desc k) name) (i_children i).
+Definition lists_fpr (i : info) (fpr : bytes) : bool :=
+  existsb (fun k => match attr_lookup (bs "Fingerprint") (i_attrs k) with
+                    | Some f => bytes_eqb f (hex_of true fpr) | None => false end) (i_children i).
+
+(* extra = (0 ref)                         unmodified key: every bound item is listed (as C12)
+           (1 names fprs exempt kind bit)  a bit inside a signed region was changed: the items whose
+                                           region was hit are absent or the description is empty;
+                                           exempt = the bit lies in the 16-bit bit count of a signature
+                                           MPI and leaves octet count and integer unchanged (or in a
+                                           cross-signature that is not required): nothing need change
+           (2)                             the whole key must be rejected *)
+Definition check_C11 (op : bytes) (input impl : arg) : arg :=
+  if bytes_eqb op (bs "entity") || bytes_eqb op (bs "entity_x") then
+    let private := arg_bool (arg_nth 0 input) in
+    let extra := arg_nth 3 input in
+    let kind := arg_Z (arg_nth 0 extra) in
+    match impl with
+    | AL [AZ 2%Z] => AS "inspection of a PGP key panicked"
+    | AL [AZ 0%Z; ia] =>
+        let i := info_of_arg ia in
+        if Z.eqb kind 0 then verdict (check_description private (arg_nth 1 extra) i)
+        else if Z.eqb kind 1 then
+          if arg_bool (arg_nth 3 extra) then AL []
+          else if existsb (fun n => lists_name i (arg_bytes n)) (arg_list (arg_nth 1 extra))
+          then AS "an identity is listed although its user ID, its self-signature or the primary key was altered"
+          else if existsb (fun f => lists_fpr i (arg_bytes f)) (arg_list (arg_nth 2 extra))
+          then AS "a subkey is listed although the subkey, its binding signature or the primary key was altered"
+          else AL []
+        else if Z.eqb kind 2 then
+          (match i with Info [] [] [] => AL [] | _ => AS "a key that must be rejected is described" end)
+        else AL []
+    | _ => AS "inspection failed"
+    end
+  else AL [].
